@@ -56,6 +56,7 @@ let enc_step (s : est) (o : op) (inp : byte list) (cap : nat) : est eans =
        | Process -> if ni > 0 && c = 0 && np = 0 then viol "PROCESS made no progress"
        | Finish -> if ni = 0 && np = 0 && not fin then viol "FINISH made no progress"
        | Flush -> if ni = 0 && np = 0 && more then viol "FLUSH made no progress") end;
+    if o = Process && ni > 0 && ok && fin && not s.fin then viol "PROCESS finished the stream";
     if s.fin && (not fin || c > 0 || np > 0) then viol "finished is not absorbing";
     if s.fin && ni = 0 && not ok then viol "finished encoder refused an empty call";
     if capi = 0 && (not s.fin) && fin then viol "finished without output space";
